@@ -141,6 +141,31 @@ def main(ctx, replay=None):
             ctx.violation(f"e_{aa} vs e_{ab}: equality/hash wrong", {"a": aa, "b": ab}, {"fn": "e_", "clause": "eq_hash"})
     ctx.sample({"call": "e_(3,2)", "expected_voigt": 4})
 
+    # ---- the rejections do not depend on the interpreter's optimisation flag (python -O strips assert / __debug__ blocks) ------
+    import os
+    import subprocess
+    import sys
+    import tempfile
+    rej = [{"fn": fn, "args": list(_call_args(row))} for fn, rows in (("c_", table["modulus"]), ("e_", table["strain"])) for row in rows if row["rejected"]]
+    with tempfile.NamedTemporaryFile("w", suffix=".json", prefix="cijverif.c10.", delete=False) as fp:
+        json.dump(rej, fp)
+    prog = ("import json,sys\nimport cij.util as U\nbad=[]\n"
+            "for r in json.load(open(sys.argv[1])):\n"
+            "    try:\n        getattr(U, r['fn'])(*r['args']); bad.append(r)\n    except Exception: pass\n"
+            "print(json.dumps(bad))\n")
+    env = dict(os.environ, PYTHONPATH=str(REPO) + os.pathsep + os.environ.get("PYTHONPATH", ""))
+    try:
+        pr = subprocess.run([sys.executable, "-O", "-c", prog, fp.name], capture_output=True, text=True, timeout=600, env=env)
+    finally:
+        os.unlink(fp.name)
+    if pr.returncode != 0:
+        raise MachineryError(f"python -O replay of the rejection table failed: {pr.stderr[-400:]}")
+    accepted_O = json.loads(pr.stdout.strip().splitlines()[-1])
+    ctx.cov["evaluations"] += len(rej)
+    ctx.cov["rejections_replayed_under_python_O"] = len(rej)
+    for r in accepted_O[:5]:
+        ctx.violation(f"{r['fn']}{tuple(r['args'])} is accepted under `python -O`; the index algebra rejects it", r, {"fn": r["fn"], "clause": "rejected_under_O"})
+
     # ---- T: record real-code calls and validate against the spec -----------------------------------
     records = _record_calls()
     ok, consumed, tres = validate_trace(ctx, "Trace_Voigt", "Trace_Voigt.cfg", records, name="voigt")
